@@ -194,6 +194,15 @@ pub fn probe(txs: &[MultiEraTx], env: &Environment, utxos: &UTxOs, cert_state: &
             must_reject("a maximum of 0 collateral inputs", txs, &pp(&|p| match p { PP::Alonzo(x) => x.max_collateral_inputs = 0, PP::Babbage(x) => x.max_collateral_inputs = 0, PP::Conway(x) => x.max_collateral_inputs = 0, _ => () }), utxos, &cs0);
             must_reject("a collateral percentage of 10^9", txs, &pp(&|p| match p { PP::Alonzo(x) => x.collateral_percentage = 1_000_000_000, PP::Babbage(x) => x.collateral_percentage = 1_000_000_000, PP::Conway(x) => x.collateral_percentage = 1_000_000_000, _ => () }), utxos, &cs0);
         }
+        // Conway computes the script-integrity hash from the cost models in the protocol parameters (cost_model_for_tx):
+        // one changed entry in every model on record must break it. Alonzo and Babbage hash a table compiled into the
+        // validator (cost_model_cbor), chosen by network and slot, so the parameters do not reach their rule and are left alone.
+        if matches!(env.prot_params(), PP::Conway(_)) && tx.as_conway().map_or(false, |t| t.transaction_body.script_data_hash.is_some()) {
+            let bump = |m: &mut Vec<i64>| { if let Some(x) = m.first_mut() { *x = x.wrapping_add(1); } };
+            must_reject("the first entry of every cost model on record changed by one", txs, &pp(&|p| match p {
+                PP::Conway(x) => { if let Some(m) = x.cost_models_for_script_languages.plutus_v1.as_mut() { bump(m); } if let Some(m) = x.cost_models_for_script_languages.plutus_v2.as_mut() { bump(m); } if let Some(m) = x.cost_models_for_script_languages.plutus_v3.as_mut() { bump(m); } }
+                _ => () }), utxos, &cs0);
+        }
     }
     tx_side(txs, env, utxos, &cs0);
     entry_side(txs, env, utxos, &cs0, scripts);
